@@ -38,6 +38,10 @@ def _fixed_tree():
     spec["d100.txt"] = {"t": "d", "ch": {}, "mtime": E0}
     spec["d.log"] = {"t": "d", "ch": {"inner.txt": {"t": "f", "c": "z" * 100, "mtime": E0 - 1}}, "mtime": E0 + 86400}
     spec["l.txt"] = {"t": "l", "to": "s100_0.txt"}
+    # entries whose `ext` is the empty text: a text column is always present, empty or not
+    spec["README"] = {"t": "f", "c": "z" * 100, "mtime": E0}
+    spec["Makefile"] = {"t": "f", "c": "z" * 50, "mtime": E0 - 1}
+    spec["plain"] = {"t": "d", "ch": {}, "mtime": E0 + 86399}
     return spec
 
 
@@ -81,6 +85,11 @@ FIXED_ATOMS = [
     {"kind": "text", "fam": "order", "col": "name", "op": ">", "lit": "m"},
     {"kind": "text", "fam": "order", "col": "name", "op": "<=", "lit": "s100"},
     {"kind": "text", "fam": "order", "col": "ext", "op": ">=", "lit": "log"},
+    {"kind": "text", "fam": "order", "col": "ext", "op": "<", "lit": "m"},
+    {"kind": "text", "fam": "order", "col": "ext", "op": "lte", "lit": "txt"},
+    {"kind": "text", "fam": "order", "col": "lower(ext)", "op": ">", "lit": "log"},
+    {"kind": "between", "col": "ext", "op": "between", "lit": "a", "lit2": "m"},
+    {"kind": "datebetween", "col": "upper(ext)", "op": "between", "lit": "LOG", "lit2": "TXT"},   # (quoted bounds)
     {"kind": "text", "fam": "pattern-on-number", "col": "size", "op": "like", "lit": "1%"},
     {"kind": "text", "fam": "pattern-on-number", "col": "size", "op": "not like", "lit": "1%"},
     {"kind": "text", "fam": "pattern-on-number", "col": "size", "op": "=~", "lit": "^1"},
@@ -91,7 +100,7 @@ FIXED_ATOMS = [
     # little, but it and its negation still divide the entries between them
     {"kind": "colcol", "col": "size", "op": ">", "lit": "name"},
     {"kind": "colcol", "col": "size", "op": "<=", "lit": "name"},
-    {"kind": "colcol", "col": "size", "op": ">=", "lit": "ext"},
+    {"kind": "colcol", "col": "size", "op": ">=", "lit": "path"},   # (not `ext`: an empty text on the right is "no value", by design on neither side)
     {"kind": "colcol", "col": "modified", "op": ">=", "lit": "name"},
     {"kind": "colcol", "col": "modified", "op": "<", "lit": "path"},
     {"kind": "colcol", "col": "length(name)", "op": ">", "lit": "name"},
